@@ -404,8 +404,12 @@ class Gen:
             return ['let', 'v%d' % depth, a, ['seq', b, ['py', 'v%d' % depth]]]
         if kind == 'call':
             t = sorted(n for n, i in self.table.items() if i['kind'] == 'template')
-            # template bodies are '"(" >> x << ")"'-like: they consume before the argument
-            return ['call', r.choice(t), self.expr(rank, False, False, d, supers)]
+            tn = r.choice(t)
+            # Tw-like bodies ('"(" >> x << ")"') consume before the argument; a pass-through
+            # template evaluates its argument first: the argument is then in leftmost position
+            if self.table[tn].get('arg_leftmost'):
+                return ['call', tn, self.expr(rank, leftmost, consume, d, supers)]
+            return ['call', tn, self.expr(rank, False, False, d, supers)]
         raise AssertionError(kind)
 
     def _env(self):
@@ -660,6 +664,8 @@ class Sampler:
         self.maxdepth = maxdepth
         self.budget = 4000           # expression visits per sampler: amplified grammars explode otherwise
         self._size = {}
+        self.long_n = None           # when set: the first repetition met near the top gets this many rounds
+        self._shallow = 0
 
     def _sz(self, e):
         k = id(e)
@@ -712,14 +718,17 @@ class Sampler:
             return self.expr(r.choice(opts), depth + 1, bind)
         if k == 'opt':
             return self.expr(e[1], depth + 1, bind) if (not deep and r.random() < 0.6) else []
-        if k in ('star', 'skip'):
-            n = 0 if deep else r.choice([0, 1, 1, 2, 3])
-            out = []
-            for _ in range(n):
-                out += self.expr(e[1], depth + 1, bind)
-            return out
-        if k == 'plus':
-            n = 1 if deep else r.choice([1, 1, 2, 3])
+        if k in ('star', 'skip', 'plus'):
+            if self.long_n and depth <= 4:
+                n, self.long_n = self.long_n, None
+                out = []
+                for _ in range(n):
+                    self.budget = 60            # every round small
+                    out += self.expr(e[1], self.maxdepth - 1, bind)
+                self.budget = 200
+                return out
+            lo = 1 if k == 'plus' else 0
+            n = lo if deep else r.choice([lo, 1, 1, 2, 3])
             out = []
             for _ in range(n):
                 out += self.expr(e[1], depth + 1, bind)
@@ -733,6 +742,16 @@ class Sampler:
             return out
         if k in ('sep', 'sept'):
             n = 0 if deep else r.choice([0, 1, 2, 3])
+            if self.long_n and depth <= 4:
+                n, self.long_n = self.long_n, None
+                out = []
+                for i in range(n):
+                    self.budget = 60
+                    if i:
+                        out += self.expr(e[2], self.maxdepth - 1, bind)
+                    out += self.expr(e[1], self.maxdepth - 1, bind)
+                self.budget = 200
+                return out
             out = []
             for i in range(n):
                 if i:
